@@ -426,6 +426,9 @@ def tag_padding_amounts(w, fn):
                 cb, _, _ = C.backward_slice(b, pb["local"])
                 out.append((i, bool(count_dests & la), any(c.endswith("Vec::len") for c in cb)))
     # the other idiom: grow the flat vector to the end of the character's row, `tags.resize(row start + slot count, None)`
+    # (only when no subtraction form exists: `resize(len + (count - own), None)` is the subtraction form again)
+    if any(x[1] and x[2] for x in out):
+        return out
     for bb, t in cfgmod.calls(b):
         if (cfgmod.callee(t) or "").endswith("Vec::resize") and len(t["args"]) == 3:
             p1 = t["args"][1].get("copy") or t["args"][1].get("move")
